@@ -9,6 +9,9 @@
 //!              2 cleanup arg `()`, cache filled by validating a derived set with #[validate(funder|recipient)]
 //!              3 cleanup arg `()`, empty cache     4 as 2 but THIRD was cached before (first one wins)
 //!        kind  0 Mut<Account<Fix>> (w=8)  1 Mut<Account<Fix1>> (w=1)  2 Mut<BorshAccount<Bo>> (via 0, or close)
+//!              3 + n: Mut<BorshAccount<Bo>> through the CLEANUP ARGUMENTS (every via), its value RESIZED in the instruction:
+//!              the account starts holding Bo { v: [7; n] }, the instruction assigns the value the case's ACCOUNT data
+//!              spells out (the image AFTER the write-back: the sizes the rent operation has to work with), then cleans up
 //!        okind funder: 0 Mut<Signer> 1 Mut<Seeded<SystemAccount>>;  recipient: 0 Mut<AccountInfo> 1 Mut<SystemAccount>
 //! obs  : 0 ACC' ACC' ACC' cpi-log | 1 code | 2 (panic) | 3 code (an account set was rejected before the operation)
 #[path = "../rent_sim.rs"]
@@ -94,6 +97,16 @@ cached_set!(RecvFix1, funder, Mut<Signer>, Mut<Account<Fix1>>, ReceiveRent(()));
 cached_set!(RefFix1, recipient, Mut<AccountInfo>, Mut<Account<Fix1>>, RefundRent(()));
 cached_set!(CloseFix1, recipient, Mut<AccountInfo>, Mut<Account<Fix1>>, CloseAccount(()));
 cached_set!(CloseBo, recipient, Mut<AccountInfo>, Mut<BorshAccount<Bo>>, CloseAccount(()));
+cached_set!(NormBo, funder, Mut<Signer>, Mut<BorshAccount<Bo>>, NormalizeRent(()));
+cached_set!(RecvBo, funder, Mut<Signer>, Mut<BorshAccount<Bo>>, ReceiveRent(()));
+cached_set!(RefBo, recipient, Mut<AccountInfo>, Mut<BorshAccount<Bo>>, RefundRent(()));
+trait HasBo {
+    fn bo(&mut self) -> &mut Mut<BorshAccount<Bo>>;
+}
+macro_rules! has_bo {
+    ($($t:ty),*) => { $( impl HasBo for $t { fn bo(&mut self) -> &mut Mut<BorshAccount<Bo>> { &mut self.account } } )* };
+}
+has_bo!(CloseBo, NormBo, RecvBo, RefBo);
 
 struct AccSpec {
     key: [u8; 32],
@@ -223,6 +236,45 @@ fn plain_bo(e: &Env, ctx: &mut Context) -> Step {
     Ok(r)
 }
 
+/// kind 3 + n: the value is replaced (other serialized size) and the account cleaned up through the cleanup ARGUMENT
+fn plain_bo_args(e: &Env, ctx: &mut Context, newv: &[u8]) -> Step {
+    let mut acct = <Mut<BorshAccount<Bo>>>::try_from_account(&e.ainfo, ctx).map_err(err_code)?;
+    acct.v = newv.to_vec();
+    let r = match (e.via, e.op) {
+        (1, 0) => match (e.f0, e.f1) {
+            (Some(f), _) => acct.cleanup_accounts(NormalizeRent(f), ctx),
+            (_, f) => acct.cleanup_accounts(NormalizeRent(f.unwrap()), ctx),
+        },
+        (1, 1) => match (e.r0, e.r1) {
+            (Some(f), _) => acct.cleanup_accounts(RefundRent(f), ctx),
+            (_, f) => acct.cleanup_accounts(RefundRent(f.unwrap()), ctx),
+        },
+        (1, 2) => match (e.f0, e.f1) {
+            (Some(f), _) => acct.cleanup_accounts(ReceiveRent(f), ctx),
+            (_, f) => acct.cleanup_accounts(ReceiveRent(f.unwrap()), ctx),
+        },
+        (1, _) => match (e.r0, e.r1) {
+            (Some(f), _) => acct.cleanup_accounts(CloseAccount(f), ctx),
+            (_, f) => acct.cleanup_accounts(CloseAccount(f.unwrap()), ctx),
+        },
+        (_, 0) => acct.cleanup_accounts(NormalizeRent(()), ctx),
+        (_, 1) => acct.cleanup_accounts(RefundRent(()), ctx),
+        (_, 2) => acct.cleanup_accounts(ReceiveRent(()), ctx),
+        (_, _) => acct.cleanup_accounts(CloseAccount(()), ctx),
+    };
+    Ok(r)
+}
+fn derived_bo<S>(e: &Env, ctx: &mut Context, newv: &[u8]) -> Step
+where
+    S: for<'a> star_frame::account_set::TryFromAccountsWithArgs<'a, (), ()> + AccountSetCleanup<()> + HasBo,
+{
+    let infos = [e.oinfo, e.ainfo];
+    let mut sl = &infos[..];
+    let mut set = S::try_from_accounts(&mut sl, ctx).map_err(err_code)?;
+    set.bo().v = newv.to_vec();
+    Ok(set.cleanup_accounts((), ctx))
+}
+
 /// via 2 / 4: decode + validate the derived set (fills the cache), then its cleanup
 fn derived<S>(e: &Env, ctx: &mut Context) -> Step
 where
@@ -242,10 +294,26 @@ fn run(c: &[i128]) -> Option<Vec<i128>> {
     let okind = cur.next()?;
     let lpby = cur.next()? as u64;
     let mult = cur.next()?;
-    let a = rd_acc(&mut cur)?;
+    let mut a = rd_acc(&mut cur)?;
     let o = rd_acc(&mut cur)?;
     let t = rd_acc(&mut cur)?;
     let oseeds = rd_seeds(&mut cur)?;
+    // kind 3 + n: the case spells out the image AFTER the write-back; the account starts with Bo { v: [7; n] }
+    let mut newv: Vec<u8> = vec![];
+    let kind = if kind >= 3 {
+        let n = (kind - 3) as usize;
+        if a.data.len() < 12 {
+            return None;
+        }
+        newv = a.data[12..].to_vec();
+        let mut pre = a.data[..8].to_vec();
+        pre.extend((n as u32).to_le_bytes());
+        pre.extend(std::iter::repeat(7u8).take(n));
+        a.data = pre;
+        3
+    } else {
+        kind
+    };
 
     #[allow(deprecated)]
     set_rent(Some(Rent { lamports_per_byte_year: lpby, exemption_threshold: if mult == 1 { 1.0 } else { 2.0 }, burn_percent: 50 }));
@@ -280,6 +348,10 @@ fn run(c: &[i128]) -> Option<Vec<i128>> {
                 (1, 1) => derived::<RefFix1>(&e, &mut ctx),
                 (1, 2) => derived::<RecvFix1>(&e, &mut ctx),
                 (1, _) => derived::<CloseFix1>(&e, &mut ctx),
+                (3, 0) => derived_bo::<NormBo>(&e, &mut ctx, &newv),
+                (3, 1) => derived_bo::<RefBo>(&e, &mut ctx, &newv),
+                (3, 2) => derived_bo::<RecvBo>(&e, &mut ctx, &newv),
+                (3, _) => derived_bo::<CloseBo>(&e, &mut ctx, &newv),
                 (_, _) => derived::<CloseBo>(&e, &mut ctx),
             };
         }
@@ -308,6 +380,7 @@ fn run(c: &[i128]) -> Option<Vec<i128>> {
         match kind {
             0 => plain_fix(&e, &mut ctx),
             1 => plain_fix1(&e, &mut ctx),
+            3 => plain_bo_args(&e, &mut ctx, &newv),
             _ => plain_bo(&e, &mut ctx),
         }
     });
